@@ -4,7 +4,8 @@ import LenaModel.Gen.C20Facts
 /-! Model driver for C20: runs the resolver of `Model/C20.lean` on the generated facts
 (`LenaModel/Gen/C20Facts.lean`, the same `Gen.current` the instance theorem is about).  Requests:
 
-  {"op":"meta"}                      -> {"hash":..,"modules":[..],"entries":[..],"layout":bool,"resolvesAll":bool}
+  every request but "meta" carries "env": the environment (bit set of absent third-party modules, see `Gen.ext`)
+  {"op":"meta"}                      -> {"hash":..,"modules":[..],"entries":[..],"ext":[..],"envs":[..],"layout":bool,"resolvesAllEnvs":bool}
   {"op":"entry","e":"__main__[lena.flow]"}
         -> {"ok":true,"loaded":{module:"done"|"running"},"ns":{module:{name:"opaque"|"mod:<module>"}},
             "exported":bool,"states":n,"closure":[modules]}  |  {"ok":false,"err":{..}}
@@ -37,17 +38,32 @@ def errJson : Err → Json
   | .outOfFuel => Json.mkObj [("kind", "outOfFuel")]
   | .malformed => Json.mkObj [("kind", "malformed")]
 
-/-- per entry: the state after the import (or the error) and the states reachable by calls -/
-def entryTable : List (Nat × Except Err State × List State) :=
-  F.entries.map (fun e =>
-    match importEntry F e with
-    | .ok σ => (e, .ok σ, reachStates F exploreBound [σ] [σ])
-    | .error err => (e, .error err, []))
+/-- the outcome of an entry's import: the state, or the lena error, or the absent third-party
+module whose `ImportError` escaped -/
+inductive Imported where
+  | ok (σ : State)
+  | err (e : Err)
+  | ext (x : Nat)
 
-def entryOf (j : Json) : Option (Nat × Except Err State × List State) := do
+/-- per environment and entry: the outcome of the import and the states reachable by calls -/
+def entryTable : List (Nat × Nat × Imported × List State) :=
+  F.envs.flatMap (fun env =>
+    let G := F.withEnv env
+    F.entries.map (fun e =>
+      match importEntry G e with
+      | .ok (σ, none) => (env, e, .ok σ, reachStates G exploreBound [σ] [σ])
+      | .ok (_, some x) => (env, e, .ext x, [])
+      | .error err => (env, e, .err err, [])))
+
+def entryOf (j : Json) : Option (Facts × Nat × Imported × List State) := do
   let s ← str? (getD j "e")
+  let env ← nat? (getD j "env")
   let e ← modIdOf s
-  entryTable.find? (fun t => t.1 == e)
+  let t ← entryTable.find? (fun t => t.1 == env && t.2.1 == e)
+  pure (F.withEnv env, t.2.1, t.2.2.1, t.2.2.2)
+
+def extJson (x : Nat) : Json :=
+  Json.mkObj [("kind", "ThirdPartyImportError"), ("name", Gen.ext.getD x s!"?ext{x}")]
 
 def valStr : Val → String
   | .obj => "opaque"
@@ -58,15 +74,17 @@ def handle (j : Json) : Json :=
   | some "meta" =>
     Json.mkObj [("hash", Gen.sourceHash), ("modules", ofList (fun M => Json.str (nameStr M.name)) F.mods),
       ("entries", ofList (fun e => Json.str (modStr e)) F.entries), ("layout", F.layoutOk),
-      ("resolvesAll", resolvesAll F)]
+      ("ext", ofList Json.str Gen.ext.toList), ("envs", ofList ofNat F.envs),
+      ("resolvesAllEnvs", resolvesAllEnvs F)]
   | some "entry" =>
     match entryOf j with
     | none => err "unknown entry"
-    | some (_, .error e, _) => Json.mkObj [("ok", false), ("err", errJson e)]
-    | some (e, .ok σ, states) =>
+    | some (_, _, .err e, _) => Json.mkObj [("ok", false), ("err", errJson e)]
+    | some (_, _, .ext x, _) => Json.mkObj [("ok", false), ("err", extJson x)]
+    | some (F, e, .ok σ, states) =>
       let loaded := loadedMods F σ
       Json.mkObj [("ok", true),
-        ("loaded", Json.mkObj (loaded.map (fun m => (modStr m, Json.str (match σ.statusOf m with | .done => "done" | .running => "running" | .absent => "absent"))))),
+        ("loaded", Json.mkObj (loaded.map (fun m => (modStr m, Json.str (match σ.statusOf m with | .done => "done" | .running => "running" | .absent => "absent" | .failed => "failed"))))),
         ("ns", Json.mkObj (loaded.map (fun m => (modStr m, Json.mkObj ((boundIn F σ m).map (fun (n, v) => (nameStr n, Json.str (valStr v)))))))),
         ("exported", exportedB F e σ),
         ("states", ofNat states.length),
@@ -75,7 +93,7 @@ def handle (j : Json) : Json :=
         ("closureClosed", closedSetB F (importClosure F e))]
   | some "call" =>
     match entryOf j, (str? (getD j "m")).bind modIdOf, str? (getD j "f"), nat? (getD j "line") with
-    | some (_, .ok _, states), some m, some q, some line =>
+    | some (F, _, .ok _, states), some m, some q, some line =>
       match (F.modOf m).bind (fun M => M.funcs.find? (fun f => nameStr f.name == q && f.line == line)) with
       | none => Json.mkObj [("r", Json.arr #[]), ("missing", true)]
       | some f =>
@@ -85,15 +103,21 @@ def handle (j : Json) : Json :=
             | .ok _ => Json.str "ok"
             | .error e => errJson e
           | _ => Json.str "not-callable") states)]
-    | some (_, .error e, _), _, _, _ => Json.mkObj [("r", Json.arr #[]), ("import", errJson e)]
+    | some (_, _, .err e, _), _, _, _ => Json.mkObj [("r", Json.arr #[]), ("import", errJson e)]
+    | some (_, _, .ext x, _), _, _, _ => Json.mkObj [("r", Json.arr #[]), ("import", extJson x)]
     | _, _, _, _ => err "bad call args"
   | some "findings" =>
-    Json.mkObj [("findings", ofList (fun (fd : Finding) =>
-      Json.mkObj [("entry", modStr fd.entry),
+    Json.mkObj [("findings", ofList (fun (ef : Nat × Finding) =>
+      let fd := ef.2
+      Json.mkObj [("env", ofNat ef.1), ("entry", modStr fd.entry),
         ("module", match fd.func with | some (m, _, _) => Json.str (modStr m) | none => Json.null),
         ("func", match fd.func with | some (_, q, _) => Json.str (nameStr q) | none => Json.null),
         ("line", match fd.func with | some (_, _, l) => ofNat l | none => Json.null),
-        ("err", errJson fd.err)]) (diagnose F))]
+        ("err", match fd.err, fd.ext with
+          | some e, _ => errJson e
+          | none, some x => extJson x
+          | none, none => Json.null)])
+      (F.envs.flatMap (fun env => (diagnose (F.withEnv env)).map (fun fd => (env, fd)))))]
   | _ => err "unknown op"
 
 def main : IO Unit := run handle
